@@ -1,21 +1,34 @@
 import Driver.Common
 import Driver.ParserD
+import Driver.MessageD
+import Driver.ReplayD
+import Driver.JoeD
+import Driver.ClientD
+import Driver.ServerD
 /-!
 Model driver: one case per input line `<OP> <args…>[\t<go output>]`, one output line
-`M=<model output>\tS=<specification output>` per case.
+`M=<model output>\tS=<specification output>` per case. Each group module handles its own ops.
+The go output (what the real code did on this case) is passed to the handlers as the last
+argument list element prefixed with `GO=` when present, for oracles that judge an observed
+trace rather than predict it.
 -/
 open Driver
 
+def handlers : List (String → List String → Option (String × String)) :=
+  [ParserD.handle, MessageD.handle, ReplayD.handle, JoeD.handle, ClientD.handle, ServerD.handle]
+
 def handle (line : String) : String :=
-  let caseStr := (line.splitOn "\t").headD ""
+  let parts := line.splitOn "\t"
+  let caseStr := parts.headD ""
+  let go := (parts.drop 1).headD ""
   match (caseStr.splitOn " ").filter (· ≠ "") with
   | [] => "M=empty\tS=empty"
   | op :: args =>
-    let r : String × String :=
-      match op with
-      | "PARSE" => ParserD.parse args
-      | _ => ("bad-op", "bad-op")
-    s!"M={r.1}\tS={r.2}"
+    let args := if go.isEmpty then args else args ++ ["GO=" ++ go]
+    let r := handlers.findSome? (fun h => h op args)
+    match r with
+    | some r => s!"M={r.1}\tS={r.2}"
+    | none => "M=bad-op\tS=bad-op"
 
 partial def loop (h : IO.FS.Stream) (out : IO.FS.Stream) : IO Unit := do
   let line ← h.getLine
